@@ -68,6 +68,10 @@ def lp_scenario(lp, sid, r, quick=True, how=None, witness=True, cfgs=None, check
             lines.append("set_param h1 0 %d" % p["pp"])
         if "dp" in p:
             lines.append("set_param h1 2 %d" % p["dp"])
+            if p["dp"] in (6, 8):
+                # Dantzig / multiple partial dual pricing can cycle in dual phase I until the (default 500000) iteration
+                # limit; that is a legal non-definitive outcome but takes long in exact arithmetic: bound it
+                lines.append("set_param h1 5 3000")
         if "sc" in p:
             lines.append("set_param h1 7 %d" % p["sc"])
         if "display" in p:
@@ -106,6 +110,11 @@ def lp_scenario(lp, sid, r, quick=True, how=None, witness=True, cfgs=None, check
         if "prec" in p:
             lines.append("precision 128")
         lines.append("free h1")
+    # force the fallback paths of the exact driver (guarded fault hooks): the first exact test fails although the
+    # float solution may be fine -> rational basis status -> second test; results must still be certified
+    for algo in ("primal", "dual"):
+        for where in ("opt_test", "inf_test"):
+            lines += ["copy h1 h0 cpf", "fault %s 1" % where, "exact h1 %s - 1" % algo, "sol h1", "fault %s 0" % where, "free h1"]
     # repeated solves on the original object
     lines.append("exact h0 primal - 1")
     lines.append("sol h0")
